@@ -416,7 +416,8 @@ impl Arena {
     r matches Ok(m) ==> slow_ok(self.av(), old(st)@, final(st)@, size, pick(old(st)@.list, size, self.freelist),
           m.memory_offset as int, m.memory_size as int, m.ptr_offset as int, m.ptr_size as int), // [C10 C03 C20 C01]
     r matches Ok(m) ==> all_zero(final(st)@.bytes, m.ptr_offset as int, m.ptr_offset as int + m.ptr_size as int), // [C08]
-    r matches Ok(m) ==> clear_of_list(final(st)@.list, m.memory_offset as int, m.ptr_offset as int + m.ptr_size as int), // [C01]
+    r matches Ok(m) ==> meta_ok(self.av(), final(st)@, m.memory_offset as int, m.memory_size as int, m.ptr_offset as int, m.ptr_size as int), // [C01]
+    free_shrinks(old(st)@, final(st)@), // [C01]
     r matches Ok(m) ==> m.parent_ptr == self.ptr as *const u8,
     frame_ok(old(st)@.list, old(st)@.bytes, final(st)@.bytes, 0, 0), // [C01]
     wf_shape(self.av(), final(st)@), // [C01 C10]
@@ -467,6 +468,10 @@ impl Arena {
       lemma_zero_written(s2.bytes, n.0 as int + 8, size as int);
       lemma_clear_headers(s2.list, n.0 as int + 8, data_end_offset as int);
       lemma_wf_frame(self.av(), s2, st@, n.0 as int + 8, data_end_offset as int);
+      lemma_first_idx_bounds(s1.list, seg_node(data_end_offset as int, remaining as int).1, asc_of(self.freelist));
+      if seg_valid(s1, data_end_offset as int, remaining as int) { lemma_seg_node_props(self.av(), s1, data_end_offset as int, remaining as int); }
+      lemma_slow_free_shrinks(s0, st@, k, seg_valid(s1, data_end_offset as int, remaining as int), seg_node(data_end_offset as int, remaining as int),
+        first_idx(s1.list, seg_node(data_end_offset as int, remaining as int).1, asc_of(self.freelist)));
       assert(frame_ok(l, s0.bytes, st@.bytes, 0, 0)) by {
         assert forall|b: int| 0 <= b < s0.bytes.len() implies st@.bytes[b] == s0.bytes[b] || 0 <= b < 0 || #[trigger] in_list(l, b) by {
           if n.0 as int + 8 <= b < data_end_offset as int { assert(in_node(l[k], b)); }
@@ -489,7 +494,8 @@ impl Arena {
     r matches Ok(m) ==> slow_ok(self.av(), old(st)@, final(st)@, size, pick(old(st)@.list, size, self.freelist),
           m.memory_offset as int, m.memory_size as int, m.ptr_offset as int, m.ptr_size as int), // [C10 C03 C20 C01]
     r matches Ok(m) ==> all_zero(final(st)@.bytes, m.ptr_offset as int, m.ptr_offset as int + m.ptr_size as int), // [C08]
-    r matches Ok(m) ==> clear_of_list(final(st)@.list, m.memory_offset as int, m.ptr_offset as int + m.ptr_size as int), // [C01]
+    r matches Ok(m) ==> meta_ok(self.av(), final(st)@, m.memory_offset as int, m.memory_size as int, m.ptr_offset as int, m.ptr_size as int), // [C01]
+    free_shrinks(old(st)@, final(st)@), // [C01]
     r matches Ok(m) ==> m.parent_ptr == self.ptr as *const u8,
     frame_ok(old(st)@.list, old(st)@.bytes, final(st)@.bytes, 0, 0), // [C01]
     wf_shape(self.av(), final(st)@), // [C01 C10]
@@ -539,12 +545,67 @@ impl Arena {
       lemma_zero_written(s2.bytes, n.0 as int + 8, size as int);
       lemma_clear_headers(s2.list, n.0 as int + 8, data_end_offset as int);
       lemma_wf_frame(self.av(), s2, st@, n.0 as int + 8, data_end_offset as int);
+      lemma_first_idx_bounds(s1.list, seg_node(data_end_offset as int, remaining as int).1, asc_of(self.freelist));
+      if seg_valid(s1, data_end_offset as int, remaining as int) { lemma_seg_node_props(self.av(), s1, data_end_offset as int, remaining as int); }
+      lemma_slow_free_shrinks(s0, st@, k, seg_valid(s1, data_end_offset as int, remaining as int), seg_node(data_end_offset as int, remaining as int),
+        first_idx(s1.list, seg_node(data_end_offset as int, remaining as int).1, asc_of(self.freelist)));
       assert(frame_ok(l, s0.bytes, st@.bytes, 0, 0)) by {
         assert forall|b: int| 0 <= b < s0.bytes.len() implies st@.bytes[b] == s0.bytes[b] || 0 <= b < 0 || #[trigger] in_list(l, b) by {
           if n.0 as int + 8 <= b < data_end_offset as int { assert(in_node(l[k], b)); }
         }
       }
     }
+//@@end
+
+// ---- discard_freelist ----------------------------------------------------------------------------------------------
+
+//@@fn file=unsync.rs scope="impl Arena {" name=discard_freelist_in xlate=unsync st=mut props=C20,C10
+//@contract
+  requires
+    wf(self.av(), old(st)@),
+    old(st)@.writable, // [C09]
+    old(st)@.discarded + sum_sizes(old(st)@.list) <= u32::MAX as int, // [C20]
+  ensures
+    r as int == sum_sizes(old(st)@.list), // [C20]
+    final(st)@ == (SV { list: Seq::<Node>::empty(), discarded: old(st)@.discarded + sum_sizes(old(st)@.list),
+                        sentinel: enc(SENTINEL_SEGMENT_NODE_SIZE, SENTINEL_SEGMENT_NODE_OFFSET), ..old(st)@ }), // [C20 C10]
+    wf(self.av(), final(st)@), // [C10]
+//@loop 1
+      invariant
+        wf(self.av(), st@), st@.writable,
+        st@.bytes == old(st)@.bytes, st@.allocated == old(st)@.allocated, st@.min_seg == old(st)@.min_seg, st@.lo == old(st)@.lo, st@.writable == old(st)@.writable,
+        discarded as int + sum_sizes(st@.list) == sum_sizes(old(st)@.list),
+        old(st)@.discarded + sum_sizes(old(st)@.list) <= u32::MAX as int,
+        st@.discarded == old(st)@.discarded + discarded as int,
+      decreases st@.list.len(),
+//@before 1 /let sentinel = st\.load\(CellRef::Sentinel\);/
+      let ghost s0 = st@;
+      let ghost l = s0.list;
+      proof {
+        lemma_dec_enc(size_of_cell(l, -1), next_of(l, -1));
+        assert(word(s0, cell_of(l, -1)) == enc(size_of_cell(l, -1), next_of(l, -1)));
+      }
+//@before 1 /return discarded;/
+        proof { assert(l =~= Seq::<Node>::empty()); assert(st@ =~= (SV { list: Seq::<Node>::empty(), discarded: old(st)@.discarded + sum_sizes(old(st)@.list), sentinel: enc(SENTINEL_SEGMENT_NODE_SIZE, SENTINEL_SEGMENT_NODE_OFFSET), ..old(st)@ })); }
+//@before 1 /let head = self\.get_segment_node\(st, head_node_offset\);/
+      proof {
+        assert(l.len() > 0);
+        assert(node_ok(self.av(), s0, l[0]));
+        lemma_dec_enc(size_of_cell(l, 0), next_of(l, 0));
+        assert(word(s0, cell_of(l, 0)) == enc(size_of_cell(l, 0), next_of(l, 0)));
+      }
+//@after 1 /st\.store\(CellRef::Sentinel, encode_segment_node\(sentinel_node_size, next_node_offset\)\);/
+      proof {
+        st.list = Ghost(l.remove(0));
+        lemma_remove_bytes(self.av(), s0, st@, 0);
+        lemma_remove_shape(self.av(), s0, st@, 0);
+        lemma_remove_order(self.av(), s0, st@, 0);
+        assert(sum_sizes(l) == l[0].1 as int + sum_sizes(l.remove(0)));
+        lemma_sum_nonneg(l.remove(0));
+      }
+      let ghost s1 = st@;
+//@after 1 /st\.hdr\.discarded \+= segment_node\.data_size;/
+      proof { lemma_wf_frame(self.av(), s1, st@, 0, 0); }
 //@@end
 
 } // impl Arena
